@@ -26,6 +26,36 @@ def _is_updater_expr(p, e, f, ucs):
 
 def run(report, p):
     ucs = updater_classes(p)
+    # ------------------------------------------------------------------ R20.8 (evaluated first: it needs nothing but the class table)
+    r8 = report.rule(
+        "R20.8",
+        "nothing around the command can swallow its exit: no `__exit__` in the package returns a value that can be true (a truthy return suppresses the "
+        "ClickException / Exit raised by the command, turning a failure exit code into 0), and the CLI groups do not wrap command invocation in try/except",
+        1,
+    )
+    n_exit = 0
+    for cq, c in sorted(p.classes.items()):
+        ex = c.methods.get("__exit__")
+        if ex is None:
+            continue
+        n_exit += 1
+        r8.instance(ex, ex.node, f"{cq}.__exit__")
+        for rt in [n for n in walk_no_nested(ex.node) if isinstance(n, ast.Return) and n.value is not None]:
+            v = rt.value
+            harmless = isinstance(v, ast.Constant) and not v.value
+            r8.check(harmless, ex, rt, f"`{cq.split('.')[-1]}.__exit__` returns `{norm(v)[:60]}`: when that is true the exception of the command (its exit code) is suppressed and the process exits 0", construct=f"__exit__ of {cq.split('.')[-1]} can return a true value")
+    r8.instance(None, None, f"{n_exit} __exit__ method(s) in the package")
+    for mq, m in sorted(p.modules.items()):
+        if not mq.startswith("ascmhl.cli"):
+            continue
+        for n in ast.walk(m.tree):
+            if isinstance(n, ast.FunctionDef) and n.name in ("invoke", "main", "__call__"):
+                for t in [x for x in ast.walk(n) if isinstance(x, ast.Try) and x.handlers]:
+                    broad = [h for h in t.handlers if h.type is None or norm(h.type) in ("Exception", "BaseException", "click.ClickException", "ClickException", "SystemExit", "click.exceptions.Exit")]
+                    swallow = [h for h in broad if not any(isinstance(x, ast.Raise) for x in ast.walk(h))]
+                    r8.instance(None, t, f"{mq}.{n.name}: try/except")
+                    r8.check(not swallow, None, t, f"{mq}.{n.name} catches the command's exception without re-raising it", construct=f"{mq}.{n.name} swallows exceptions")
+    r8.check(True, None, None, "")
     eps = p.entry_points()
     cmds = commands(p)
     report.assume("a daemon thread cannot delay interpreter shutdown (CPython semantics)")
